@@ -16,6 +16,12 @@ CHECKS = {
    text="TLC exhausts all interleavings of the pool's critical sections for small programs (<=3 submitters, owner drain/stop/destroy at any moment) against ThreadCap, ExactlyOnce, StopComplete, NoJoinableLeft, NoStuck; the real pool runs the same programs under a scheduler that controls every pthread synchronisation point, and every recorded execution must be a behaviour of the Abs pool (exactly-once start, refusal only when full/draining/shut down, stop/destroy return only after accepted tasks finished, worker count <= max, futures ready).",
    note="Trusted: TLC, the interposition scheduler (schedule points at pthread/clock calls only), virtual time for idle timeouts and polling sleeps. Bounds: <=3 submitters x <=3 submissions, max<=3 workers, DFS preemption bound 1 (quick) / 2 (thorough), truncated at a fixed number of executions. DETACHED shutdown mode and destruction concurrent with submissions (a caller bug) are not explored.",
    design="§4 C09"),
+ "C08": dict(
+   technique="TLA+ Impl specs TimingWheel.tla (hashed hierarchical wheel with drift catch-up and cascades) and TimerService.tla (epoll timer service critical sections) model-checked by TLC; TLC behaviours replayed on the real TimingWheel under a deterministic scheduler with virtual time; scenario scripts derived from TLC counterexamples on the real TimerService/pool; all traces validated by TLC against the Abs oracles WheelTrace.tla / TimerTrace.tla",
+   category="model_checking",
+   text="TLC exhausts schedule/cancel/time/advance interleavings of small wheels (NoEarly within one tick, no fire after cancel, conservation) and of the timer service (never early, one-shot once, no start after a successful cancel, stopped service refuses). The real wheel is driven through behaviours covering the TLC graph plus random two-thread programs with its own tick thread under scheduler control and exact virtual time; the real service runs gated real-time scenarios whose cross-thread facts are happens-before flags. Every recorded execution must be a behaviour of the Abs timer.",
+   note="Trusted: TLC, the interposition scheduler and its virtual clock (wheel), the steady clock (service; early firing is judged on one clock only). Bounds: wheels of 2-8 slots x 1-3 levels, <=5 timers per execution, service scenarios of <=8 operations; the 'never silently dropped' clause is judged with a 1 s slack on the service. SteadyTimer is a thin wrapper and is not driven separately.",
+   design="§4 C08"),
 }
 
 NOT_APPLICABLE = {
